@@ -87,7 +87,17 @@ def configs(tier, seed):
         out = [c for i, c in enumerate(out) if (i + seed) % 3 == 0]
         var = [c for i, c in enumerate(var) if (i + seed) % 3 == 0]
         bigs = [c for i, c in enumerate(bigs) if tuple(c["ver"]) in ((3, 1), (3, 3), (3, 4)) and (i + seed) % 2 == 0]
-    allc = out + var + bigs
+    # TLS 1.3 with a HelloRetryRequest and different record size limits on the two sides (the limits are
+    # installed while the first ClientHello is processed and must survive the retry unswapped)
+    hrrs = []
+    for b in [b for b in reps.values() if b["ver"] == [3, 4]]:
+        for (crsl, srsl) in ((4096, 6001), (16385, 64), (511, 16385), (65, 64)):
+            c = dict(b)
+            c.update(crsl=crsl, srsl=srsl, hrr=True, pad=["none", "one"][(crsl + srsl) % 2])
+            hrrs.append(c)
+    if tier != "thorough":
+        hrrs = [c for i, c in enumerate(hrrs) if (i + seed) % 3 == 0]
+    allc = out + var + bigs + hrrs
     for i, c in enumerate(allc):
         c["case"] = i
     return allc
@@ -144,6 +154,11 @@ def ops_for(cfg, rnd):
             merged.append(a.pop(0))
         else:
             merged.append(bb.pop(0))
+    if ver == (3, 4):
+        # TLS 1.3: several KeyUpdates per direction (requested and not) anywhere between the writes and reads
+        for d in ("c2s", "s2c"):
+            for j in range(3):
+                merged.insert(rnd.randrange(len(merged) + 1), ("KU", d, (j + cfg["case"]) % 2 == 0))
     # final drains
     merged.append(("DRAIN", "c2s"))
     merged.append(("DRAIN", "s2c"))
@@ -170,6 +185,9 @@ def run_case(cfg):
     ver = tuple(cfg["ver"])
     cextra = {"useEncryptThenMAC": cfg["etm"], "record_size_limit": cfg["crsl"] or None}
     sextra = {"useEncryptThenMAC": cfg["etm"], "record_size_limit": cfg["srsl"] or None}
+    if cfg.get("hrr"):
+        cextra.update(keyShares=["x25519"], eccCurves=["x25519", "secp256r1"])
+        sextra.update(keyShares=["secp256r1"], eccCurves=["secp256r1"])
     f = suites.force(cfg["sid"], ver, cextra, sextra)
     p = Pair("c01-%d" % cfg["case"])
     tr = RecTracer()
@@ -207,6 +225,39 @@ def run_case(cfg):
                 break
             W[d] += n
             tr.emit("WE", d=d)
+        elif op[0] == "KU":
+            from tlslite.constants import KeyUpdateMessageType
+            _, d, req = op
+            who, peer = ("c", "s") if d == "c2s" else ("s", "c")
+            wconn, pconn = (p.c, p.s) if who == "c" else (p.s, p.c)
+            o = p.op(who, wconn.send_keyupdate_request(KeyUpdateMessageType.update_requested if req
+                                                       else KeyUpdateMessageType.update_not_requested))
+            if not o.ok:
+                info["problems"].append("send_keyupdate_request raised %s" % o.describe())
+                break
+            # each side gets a chance to process what is in flight (a read of zero bytes does that when nothing is
+            # buffered); data that comes along is accounted for like any other read
+            bad = False
+            for ep, conn, dd in ((peer, pconn, d), (who, wconn, "s2c" if d == "c2s" else "c2s")):
+                for q in p.pipes:
+                    q.transfer()
+                pipe = p.c2s if dd == "c2s" else p.s2c
+                if conn._readBuffer or not (pipe.buf or conn.sock._read_buffer):
+                    continue        # nothing in flight towards this endpoint (or it would not look at it now)
+                o = p.op(ep, _read_gen(conn, None, 0))
+                if not o.done:
+                    continue        # everything in flight was processed; the call now waits for more input
+                if not o.ok or o.value is None:
+                    info["problems"].append("read after KeyUpdate: %s" % o.describe())
+                    tr.emit("RX", d=dd, exc=o.describe())
+                    bad = True
+                    break
+                got = bytes(o.value)
+                if got:
+                    tr.emit("RD", d=dd, max=-1, min=0, len=len(got), match=got == stream(dd, Rd[dd], len(got)), closed=bool(conn.closed))
+                    Rd[dd] += len(got)
+            if bad:
+                break
         else:
             d = op[1]
             who = "s" if d == "c2s" else "c"
